@@ -261,7 +261,20 @@ def lean_build(targets):
 
 
 def ltmodel_path():
-    return os.path.join(LEAN, ".lake", "build", "bin", "ltmodel")
+    """launcher `ltmodel <model>` that execs the per-model driver ltm_<model>"""
+    return os.path.join(VERIF, "tools", "ltmodel")
+
+
+# line-protocol model(s) each property's check drives
+MODEL_OF = {"C01": ["h1"], "C02": ["url"], "C03": ["access", "url"], "C04": ["h1resp"], "C05": ["h2"],
+            "C06": ["h2"], "C07": ["hpack"], "C08": ["server", "h1"], "C09": ["cgi", "url", "h1"],
+            "C10": ["beresp"], "C11": ["gw"], "C12": ["arith", "h1"], "C13": ["life"], "C14": ["cond"],
+            "C15": ["range"], "C16": ["auth"], "C17": ["cq"], "C18": ["dav"], "C19": ["deflate"],
+            "C20": ["kv", "url"]}
+
+
+def model_targets(pid):
+    return ["ltm_" + m for m in MODEL_OF.get(pid, [])]
 
 
 _thm_re = re.compile(r"^\s*(?:@\[[^\]]*\]\s*)?theorem\s+([A-Za-z_][\w.']*)", re.M)
